@@ -39,7 +39,9 @@ class AbstractModel(object):
         return sorted(names)
 
     def const_names(self):
-        names = ['%s.size' % c for c, _ in self.comps]
+        # (two species may live in one compartment: one size)
+        names = ['%s.size' % c for c in dict.fromkeys(
+            c for c, _ in self.comps)]
         for t in self.trans:
             if t['kind'] == 'lin':
                 names.append('global.' + t['k'])
@@ -81,7 +83,7 @@ class AbstractModel(object):
              '</listOfUnits></unitDefinition></listOfUnitDefinitions>',
              '<listOfCompartments>']
         x += ['<compartment id="%s" size="1" constant="true"/>' % c
-              for c, _ in self.comps]
+              for c in dict.fromkeys(c for c, _ in self.comps)]
         x += ['</listOfCompartments>', '<listOfSpecies>']
         x += ['<species id="%s" compartment="%s" initialAmount="0" '
               'hasSubstanceUnits="false"/>' % (s, c) for c, s in self.comps]
@@ -278,6 +280,10 @@ class AbstractModel(object):
 def random_model(rng, allow_nonlinear=True):
     nc = int(rng.integers(1, 4))
     comps_ids = list(rng.permutation(COMP_IDS)[:nc])
+    if nc >= 2 and rng.random() < 0.3:
+        # a second species in the first compartment (parent drug and
+        # metabolite): same size, another amount variable
+        comps_ids[1] = comps_ids[0]
     comps = [(c, 'd%s%d' % (c[0], i)) for i, c in enumerate(comps_ids)]
     trans = []
     k = 0
